@@ -13,7 +13,7 @@ for d in sorted(glob.glob("/verif/seeded/[CW]*")):
         pass
     last = runs[sorted(runs)[-1]] if runs else {}
     caught = last.get("caught_by", [])
-    allc = sorted(set(c for r in runs.values() for c in r.get("caught_by", [])))
+    allc = sorted(set(m.get("caught_by_quick", [])) | set(c for r in runs.values() for c in r.get("caught_by", [])))
     what = (m.get("title") or m.get("what_it_breaks") or "")[:110].replace("|", "/")
     print("| %s | %s | %s | %s | %s |" % (name, m.get("property"), what, ", ".join(allc) or "none", notes.get(name, "")))
 print()
